@@ -33,7 +33,8 @@ def opsLsb0 : Handler := fun st toks =>
   | ["stats", d] => do
     let (_, sl) ← b? d
     pure (st, specMark (showStats (Bitmap.statisticsM sl.m) (Bitmap.serializedSize sl.m))
-                       (showStatsSpec (Spec.stats sl.s)))
+                       (showStatsSpec (Spec.stats sl.s))
+      ++ safeMark "stats" (decide (Bitmap.Safe_statistics sl.m)))
   | ["debug", d] => do
     let (_, sl) ← b? d
     let spec := showDebug (Spec.debugString sl.s)
